@@ -35,6 +35,9 @@ pub use v1::OutputPort;
 #[cfg(feature = "output-port-v2")]
 pub use v2::OutputPort;
 
+#[cfg(all(feature = "verif", feature = "output-port-v2"))]
+pub use v2::verif_hooks;
+
 #[cfg(not(feature = "output-port-v2"))]
 mod v1 {
     use std::fmt::Debug;
@@ -117,6 +120,20 @@ mod v1 {
             if self.tx.receiver_count() > 0 {
                 let _ = self.tx.send(Some(msg));
             }
+        }
+    }
+
+    #[cfg(feature = "verif")]
+    impl<TMsg: OutputMessage> OutputPort<TMsg> {
+        /// verification hook: `(handles held in `subscriptions`, of which finished,
+        /// live broadcast receivers)`
+        pub fn verif_subscriptions(&self) -> (usize, usize, usize) {
+            let subs = self.subscriptions.read().unwrap();
+            (
+                subs.len(),
+                subs.iter().filter(|s| s.is_dead()).count(),
+                self.tx.receiver_count(),
+            )
         }
     }
 
@@ -230,6 +247,9 @@ mod v2 {
             self.inner.send(msg)
         }
     }
+
+    #[cfg(feature = "verif")]
+    pub use inner::verif_hooks;
 
     mod inner {
 
@@ -479,6 +499,107 @@ mod v2 {
 
             fn id(&self) -> ActorId {
                 self.get_id()
+            }
+        }
+
+        /// Verification hooks: the private `dispatch_batch` driven with recording
+        /// subscribers (feature `verif`, add-only).
+        #[cfg(feature = "verif")]
+        #[allow(missing_docs, missing_debug_implementations, unreachable_pub)]
+        pub mod verif_hooks {
+            use std::sync::{Arc, Mutex};
+
+            use super::{dispatch_batch, OutportMessage, Subscriber, Subscribers, MAX_BATCH_SIZE};
+
+            /// `MAX_BATCH_SIZE`
+            pub const MAX_BATCH: usize = MAX_BATCH_SIZE;
+
+            /// A subscriber description: `id` is what `Subscriber::id()` returns, `key`
+            /// labels the subscription in the trace, `conv` selects the filter
+            /// (see `conv`), `dead` makes every actual send fail.
+            #[derive(Clone, Copy, Debug)]
+            pub struct SubSpec {
+                pub id: u32,
+                pub key: u32,
+                pub conv: u8,
+                pub dead: bool,
+            }
+
+            #[derive(Clone, Copy, Debug)]
+            pub enum Item {
+                Data(u32),
+                Set(SubSpec),
+            }
+
+            /// the converters shared with the harness and the model driver
+            pub fn conv(kind: u8, m: u32) -> Option<u32> {
+                match kind {
+                    0 => Some(m),
+                    1 => (m % 2 == 0).then_some(m),
+                    2 => (m % 2 == 1).then_some(m),
+                    3 => None,
+                    4 => Some(2 * m),
+                    _ => (m % 3 == 0).then_some(m + 1000),
+                }
+            }
+
+            /// `(key, value, Subscriber::send returned)` in call order
+            pub type Trace = Arc<Mutex<Vec<(u32, u32, bool)>>>;
+
+            struct Recording {
+                spec: SubSpec,
+                trace: Trace,
+            }
+
+            impl Subscriber<u32, u32> for Recording {
+                fn send(&self, value: &u32) -> bool {
+                    // same shape as `Filtering::send`: a filtered-out value counts as sent
+                    let ok = match conv(self.spec.conv, *value) {
+                        Some(_) => !self.spec.dead,
+                        None => true,
+                    };
+                    self.trace.lock().unwrap().push((self.spec.key, *value, ok));
+                    ok
+                }
+                fn id(&self) -> u32 {
+                    self.spec.id
+                }
+            }
+
+            /// Run the real `dispatch_batch` on `subscribers` and `batch`; returns the
+            /// trace of `Subscriber::send` calls and the keys left in `subscribers`.
+            pub async fn dispatch(
+                subscribers: &[SubSpec],
+                batch: &[Item],
+                allow_duplicate_subscription: bool,
+            ) -> (Vec<(u32, u32, bool)>, Vec<u32>) {
+                let trace: Trace = Arc::new(Mutex::new(Vec::new()));
+                let mk = |spec: &SubSpec| -> Box<dyn Subscriber<u32, u32>> {
+                    Box::new(Recording {
+                        spec: *spec,
+                        trace: trace.clone(),
+                    })
+                };
+                let mut subs: Subscribers<u32, u32> =
+                    subscribers.iter().map(|s| (s.id, mk(s))).collect();
+                let mut batch: Vec<OutportMessage<u32, u32>> = batch
+                    .iter()
+                    .map(|i| match i {
+                        Item::Data(v) => OutportMessage::Data(*v),
+                        Item::Set(s) => OutportMessage::SetSubscriber(Some(mk(s))),
+                    })
+                    .collect();
+                dispatch_batch(&mut subs, &mut batch, allow_duplicate_subscription).await;
+                assert!(batch.is_empty());
+                let trace_out = trace.lock().unwrap().clone();
+                // identify the remaining subscribers by sending them a probe value that
+                // every converter ignores for the purpose of the trace
+                let before = trace.lock().unwrap().len();
+                for (_, s) in subs.iter() {
+                    let _ = s.send(&0);
+                }
+                let remaining = trace.lock().unwrap()[before..].iter().map(|t| t.0).collect();
+                (trace_out, remaining)
             }
         }
 
